@@ -8,6 +8,7 @@
 -/
 import NV.Model.CFG
 import NV.Gen.ProxyCFG
+import NV.Gen.Upstream
 import NV.Lemmas.Sem
 namespace NV.C04
 open NV.CFG NV.Gen
@@ -31,6 +32,15 @@ theorem gen_single_semaphore :
     (ProxyCFG.semUses.any fun u => u.1 == "serveUDP") = true ∧
     (ProxyCFG.semUses.any fun u => u.1 == "serveTCP") = true ∧
     ProxyCFG.semPassedToConn = true := by decide
+
+/-- **handlers end** (the hypothesis under which "given back when the query ends" means "given
+back"): the handler's unit comes back when `p.Resolve` returns, and every upstream exchange is
+bounded by the request context — re-read from the source: every dial of the plain-DNS code takes
+the context and sets a deadline before its first I/O, the DoH request is created with the context.
+An exchange that can block for ever keeps its unit for ever. -/
+theorem gen_resolve_bounded :
+    (Upstream.dns53_dialers.all fun d => d.2.1 && d.2.2) = true ∧ Upstream.doh_request_with_ctx = true := by
+  decide
 
 /-- the extraction is not vacuous: the listener loops acquire and hand units to handlers, the
 handlers install a deferred release, and handlers are the `strict` (panic-safe) programs. -/
